@@ -409,6 +409,15 @@ pub fn path_defs() -> Vec<SubjectDef> {
         // the same text as a plain token and, at a higher priority, as an end-anchored pattern, with nothing longer running
         // through it: which of the two a buffer ending right after the text holds is decided by the next byte only
         core(true, vec![rx(" ")], vec![vec![tok(";")], vec![pr(rx(";$"), 10)], vec![tok("x")], vec![pr(rx("x\\z"), 9)], vec![tok("end")], vec![pr(rx("end(?m:$)"), 12)], vec![rx("[a-df-w]")]], false),
+        // an end-anchored pattern whose tail is a loop, next to its plain prefix and to a pattern for the loop's bytes: the
+        // run is lexed with the shorter match recorded, whatever the source holds further on
+        core(true, vec![rx(" ")], vec![vec![tok("y")], vec![pr(rx("y[0-9]+$"), 11)], vec![rx("[0-9]+")], vec![pr(rx("z[a-c]*\\z"), 12)], vec![tok("z")], vec![rx("[a-c]+")]], false),
+        // a byte class and its exact complement, both tested through look-up tables in one byte-mode definition (loops and
+        // forks), in both declaration orders
+        core(false, vec![], vec![vec![brx(b"[a-zA-Z0-9_]+")], vec![brx(b"@(?-u:[^a-zA-Z0-9_])*x")], vec![tok("@")], vec![brx(b"#(?-u:[^a-zA-Z0-9_])[a-zA-Z0-9_]")]], false),
+        core(false, vec![], vec![vec![brx(b"<(?-u:[^ac-eg])+>")], vec![brx(b"[ac-eg]+")], vec![tok("<")], vec![brx(b"=[ac-eg]=(?-u:[^ac-eg])")]], false),
+        // literals longer than 32 bytes (ASCII, 2-, 3- and 4-byte chars), with a shorter literal as their prefix
+        core(true, vec![rx(" ")], vec![vec![tok("日本語の文字列を読み取る試験ですよ")], vec![tok("日本")], vec![tok("abcdefghijklmnopqrstuvwxyz0123456789ABCDEFGH")], vec![tok("abc")], vec![tok("éàüöéàüöéàüöéàüöéàüö")], vec![tok("😀😁😂😃😄😅😆😇😈")], vec![rx("[a-z]")]], false),
         // literal runs: patterns (token, regex, skip) that end strictly inside a longer pattern's run of single-byte,
         // single-edge states (runs of 3, 4, 7, 8 states), with nothing else keeping those states multi-edge; the covering
         // inputs complete the run and fail after it, or end inside it
@@ -541,6 +550,19 @@ pub fn table_defs() -> Vec<SubjectDef> {
         has_value.extend(std::iter::repeat(true).take(5));
         has_value.push(false);
         out.push(SubjectDef { family: "callbacks".into(), def: DefSpec { utf8, subpatterns: vec![], skips, variants }, skip_log: false, has_value, error_cb, twin: false });
+    }
+    // callbacks on tokens whose last state has nothing but its self loop (a buffer that ends inside such a token holds an
+    // unfinished match), skip with a callback of the same shape
+    {
+        let mk = |text: &str, ret: u8, salt: u32, form: u8| {
+            let mut p = PatSpec::regex(LitSpec::str(text));
+            p.callback = Some(CbSpec { ret, salt, bump: 0, form });
+            p
+        };
+        let skips = vec![mk("[ \\n]+", 17, 71, 2)];
+        let variants = vec![vec![mk("[0-9]+", 12, 72, 0)], vec![mk("[a-c]+", 1, 73, 1)], vec![mk("[x-z]+", 5, 74, 3)], vec![mk("-+", 0, 75, 2)], vec![PatSpec::token(LitSpec::str("!"))]];
+        let has_value = vec![false, true, false, false, false, false];
+        out.push(SubjectDef { family: "callbacks".into(), def: DefSpec { utf8: true, subpatterns: vec![], skips, variants }, skip_log: false, has_value, error_cb: false, twin: false });
     }
     out
 }
